@@ -195,11 +195,11 @@ class IrToWasmCompiler:
         if self.pointed_functions:
             indexes = self.pointed_functions
             self.add_definition(
-                components.Table(0, "funcref", len(indexes), None)
+                components.Table(0, "funcref", len(indexes) + 1, None)
             )
             table_ref = components.Ref("table", index=0)
             print(indexes)
-            offset = [components.Instruction("i32.const", 0)]
+            offset = [components.Instruction("i32.const", 1)]
             mode = table_ref, offset
             self.add_definition(components.Elem(0, mode, indexes))
 
@@ -641,7 +641,8 @@ class IrToWasmCompiler:
             elif self.has_function(tree.value):
                 # Taking pointer of function
                 func_ref = self.function_refs[tree.value]
-                addr = len(self.pointed_functions)
+                # Table element 0 stays empty: it is the null pointer.
+                addr = len(self.pointed_functions) + 1
                 self.global_labels[tree.value] = addr
                 self.pointed_functions.append(func_ref)
             else:  # pragma: no cover
